@@ -253,6 +253,129 @@ def generator_window_probe(ctx, FatFileSystem):
     return True
 
 
+def interleaved_readers_probe(ctx, FatFileSystem):
+    """Readers share the volume: two listings / look-ups may be in progress at once (each holds only the shared side).  One
+    listing generator is consumed a few items at a time while, in between, fresh path objects list the same directory,
+    resolve names in it and read files -- in one thread, so every interleaving point is chosen, not hoped for.  Each result
+    must be what the operation gives alone (a serial order of pure reads).  Directories spanning several clusters (a FAT32
+    root included) make per-directory read positions matter."""
+    rng = ctx.rng
+    for ft in ('fat32', 'fat16', 'fat12'):
+        for where in ('root', 'sub'):
+            g = fatimg.Geometry(ft, 200, spc=1, bps=512, nfats=2, root_entries=512, type_string=True)
+            b = fatimg.Builder(g, rng)
+            buf = bytearray(b.img)
+            with warnings.catch_warnings():
+                warnings.simplefilter('ignore')
+                fs = FatFileSystem(memoryview(buf))
+            try:
+                base = (lambda: fs.root) if where == 'root' else (lambda: fs.root / 'many')
+                if where == 'sub':
+                    (fs.root / 'many').mkdir()
+                names = [f'file number {k:02d} with a long name.txt' for k in range(40)]      # 40 x 4 records = 10 clusters of 16
+                for k, n in enumerate(names):
+                    (base() / n).write_bytes(bytes([k]) * (k + 1))
+                want = sorted(names)
+                it = base().iterdir()
+                got = []
+                info = dict(fat_type=ft, directory=where)
+                for rnd in range(8):
+                    for _ in range(5):
+                        try:
+                            got.append(next(it).name)
+                        except StopIteration:
+                            break
+                    # other readers, through fresh paths, while the first listing is suspended
+                    other = sorted(p.name for p in base().iterdir())
+                    k = rng.randrange(len(names))
+                    try:
+                        data = (base() / names[k]).read_bytes()
+                    except Exception as e:          # noqa: BLE001
+                        data = repr(e)
+                    ctx.case(('interleaved-readers', ft, where, rnd), True, 'interleaved-readers')
+                    if other != want or data != bytes([k]) * (k + 1):
+                        ctx.violation('fs.atomic/readers-disturb-each-other',
+                                      f'{ft} {where} directory of {len(names)} long-named files ({where} spans several clusters): while one listing is '
+                                      f'suspended after {len(got)} items, a second listing gives {len(other)} names (expected {len(want)}) and '
+                                      f'reading {names[k]!r} gives {str(data)[:50]!r}', dict(info, suspended_after=len(got)))
+                        return False
+                got += [p.name for p in it]
+                if sorted(got) != want:
+                    ctx.violation('fs.atomic/readers-disturb-each-other',
+                                  f'{ft} {where} directory: a listing consumed a few items at a time, with other readers in between, gives {len(got)} '
+                                  f'names ({len(set(got))} distinct) instead of the {len(want)} the directory holds', dict(info, listing=got[:12]))
+                    return False
+            finally:
+                try:
+                    fs.close()
+                except Exception:
+                    pass
+    return True
+
+
+def two_volumes_probe(ctx, FatFileSystem):
+    """Each FatFileSystem has its own lock.  A thread that holds volume A's shared side (inside a listing of A) and then
+    writes to volume B must really take B's exclusive side: while ANOTHER thread holds B's shared side, a timed attempt by
+    the first thread to get B's exclusive side must fail, and B's image must not change in the meantime."""
+    rng = ctx.rng
+    vols = []
+    for ft in ('fat16', 'fat12'):
+        g = fatimg.Geometry(ft, 60, spc=1, bps=512, nfats=2, root_entries=64, type_string=True)
+        buf = bytearray(fatimg.Builder(g, rng).img)
+        with warnings.catch_warnings():
+            warnings.simplefilter('ignore')
+            vols.append((FatFileSystem(memoryview(buf)), buf))
+    (A, bufa), (B, bufb) = vols
+    try:
+        (A.root / 'one.txt').write_bytes(b'1'); (A.root / 'two.txt').write_bytes(b'2')
+        (B.root / 'there.txt').write_bytes(b'b')
+        holding, release, result = threading.Event(), threading.Event(), {}
+        def reader_of_b():
+            with B.lock.read:
+                holding.set()
+                release.wait(10)
+        th = threading.Thread(target=reader_of_b)
+        th.start()
+        holding.wait(5)
+        before = bytes(bufb)
+        it = A.root.iterdir()
+        next(it)                                    # this thread now holds A's shared side
+        try:
+            got = B.lock.write.acquire(timeout=0.3)
+            if got:
+                B.lock.write.release()
+            result['write-side-of-B'] = got
+        except Exception as e:                      # noqa: BLE001
+            result['write-side-of-B'] = repr(e)
+        # and a whole mutating operation on B: it must wait for B's reader (so it runs in a helper thread that ALSO holds A)
+        done = []
+        def writer_holding_a():
+            it2 = A.root.iterdir(); next(it2)
+            try:
+                (B.root / 'new.txt').write_bytes(b'n'); done.append('ok')
+            except Exception as e:                  # noqa: BLE001
+                done.append(repr(e))
+            list(it2)
+        tw = threading.Thread(target=writer_holding_a)
+        tw.start(); tw.join(0.4)
+        changed_early = bytes(bufb) != before
+        release.set(); th.join(5); tw.join(10); list(it)
+        ctx.case(('two-volumes',), True, 'two-volumes')
+        if result['write-side-of-B'] is not False or changed_early or done != ['ok']:
+            ctx.violation('fs.locks/volumes-share-lock-state',
+                          f'a thread inside a listing of volume A asked for the exclusive side of volume B while another thread held B\'s '
+                          f'shared side: acquire(timeout) gave {result["write-side-of-B"]} (expected False); a write to B by a thread holding A '
+                          f'changed B\'s image before B\'s reader let go: {changed_early}; its outcome {done}', dict(result={k: str(v) for k, v in result.items()}))
+            return False
+    finally:
+        for fs, _ in vols:
+            try:
+                fs.close()
+            except Exception:
+                pass
+    return True
+
+
 def readonly_volume_probe(ctx, FatFileSystem):
     """Mutating operations on a volume mapped READ-ONLY (what DiskImage gives by default) must fail -- and, like every
     operation that raises, leave the calling thread holding nothing: another thread can take the lock afterwards."""
@@ -488,6 +611,10 @@ def run(ctx, build):
     if not generator_window_probe(ctx, _FFS):
         return
     if not torn_read_probe(ctx, _FFS):
+        return
+    if not interleaved_readers_probe(ctx, _FFS):
+        return
+    if not two_volumes_probe(ctx, _FFS):
         return
     if not readonly_volume_probe(ctx, _FFS):
         return
